@@ -46,8 +46,13 @@ def skip(why: str = "") -> None:
     raise Skipped(why)
 
 
+PATH_SITES: List[str] = []  # sites passed on the current path (reset by the driver per path)
+REACHED: Dict[str, int] = {}  # site -> number of confirmed paths through it (driver)
+
+
 def hold(site: str, cond: Any, label: str = "") -> bool:
     """The property was evaluated at `site`; `cond` must be true there."""
+    PATH_SITES.append(site)
     if TWIN_SITE is not None:
         if TWIN_SITE == site:
             raise Violated("twin:" + site)
@@ -92,6 +97,9 @@ class Obligation:
         # bounded-inconclusive tolerated (C boundary forces concretisation)
         self.may_be_partial: bool = meta.pop("may_be_partial", False)
         self.replay_fn: Optional[Callable] = meta.pop("replay_fn", None)
+        # obligations of one group share their site-coverage requirement (union)
+        self.group: str = meta.pop("group", None) or self.name
+        self.twins: bool = meta.pop("twins", self.group == self.name)
         if meta:
             raise TypeError("unknown obligation options: %s" % sorted(meta))
 
